@@ -170,3 +170,38 @@ Proof.
   split; [eexists; split; vm_compute; reflexivity|].
   repeat split; vm_compute; reflexivity.
 Qed.
+
+(* ---- at the entry points: same results of evaluate on every Boolean input vector and the same
+   truth table, when the replacement has accepted arities too and no primary input is removed
+   (inputs c' = the renamed inputs of c; an input that is itself a replaced cone output would be
+   removed) ---- *)
+Require Import Cirbo.Proofs.EntryEq Cirbo.Proofs.SemReplaceSubEntry.
+
+Theorem care_set_replace_subcircuit_entry c sub imap omap fresh c' care :
+  Inv c -> Inv sub -> arity_ok c -> arity_ok sub ->
+  replace_subcircuit c sub imap omap fresh = Ok c' ->
+  check_step_map c sub imap omap care = true ->
+  match care with Some K => care_covers c (dkeys imap) K = true | None => True end ->
+  inputs c' = map (ren_all (imap ++ omap)) (inputs c) ->
+  (forall x, length x = length (inputs c) -> evaluate c' (map inj x) = evaluate c (map inj x)) /\
+  get_truth_table c' = get_truth_table c.
+Proof.
+  intros Ic Is A As H Hstep Hcare Hin.
+  assert (Hev : forall x, length x = length (inputs c) -> evaluate c' (map inj x) = evaluate c (map inj x)).
+  { intros x Hx. apply (replace_subcircuit_evaluate_at c sub imap omap fresh c' Ic Is A As H Hin).
+    exact (check_gives_equivalence c sub imap omap fresh c' care Ic A H Hstep Hcare x Hx). }
+  split; [exact Hev|].
+  apply get_truth_table_eq_of_evaluate; [rewrite Hin, map_length; reflexivity| |exact Hev].
+  destruct Ic as [W _]. destruct Is as [Ws _].
+  rewrite (replace_subcircuit_outputs c sub imap omap fresh c' W Ws H), map_length. reflexivity.
+Qed.
+
+Lemma c04_dc_replace_entry :
+  arity_ok c04_dc_sub /\
+  exists c', replace_subcircuit c04_dc_old c04_dc_sub c04_dc_imap c04_dc_omap "f" = Ok c' /\
+    inputs c' = map (ren_all (c04_dc_imap ++ c04_dc_omap)) (inputs c04_dc_old) /\
+    get_truth_table c' = Ok [[T; T; T; T]] /\ get_truth_table c04_dc_old = Ok [[T; T; T; T]].
+Proof.
+  split; [apply arity_okb_sound; vm_compute; reflexivity|].
+  eexists; split; [vm_compute; reflexivity|]. repeat split; vm_compute; reflexivity.
+Qed.
